@@ -119,7 +119,7 @@ func runSigRepoRemote() int {
 					viaClient = true
 					rec.mt = mtJWS
 					if it.Kind == "sig" {
-						rec.mt = mediaTypeOf(it.MT)
+						rec.mt = mediaTypeRendering(mediaTypeOf(it.MT), mix(*flagSeed, c.ID, fmt.Sprintf("mt-%d", n)))
 					}
 					if it.Kind == "sigAtCap" {
 						ann["io.example/pad"] = ""
